@@ -41,12 +41,25 @@ func CidOf(v val.V) string {
 	return val.MakeCidV1(lk.CodecDagCbor, 0x12, d[:])
 }
 
-// Store maps CID bytes to block values.
+// RawCidOf is the address of the same block bytes under the raw codec: another link with the same
+// multihash, which loads as a bytes node holding the block's encoding.
+func RawCidOf(v val.V) string {
+	b, err := refcbor.Encode(v)
+	if err != nil {
+		panic(err)
+	}
+	d := sha256.Sum256(b)
+	return val.MakeCidV1(lk.CodecRaw, 0x12, d[:])
+}
+
+// Store maps CID bytes to block values (every block also under its raw-codec alias, as bytes).
 func (g Graph) Store() map[string]val.V {
 	m := map[string]val.V{}
 	for _, b := range g.Blocks {
 		// a block read back from DAG-CBOR storage has its maps in canonical order
 		m[CidOf(b)] = b.SortKeys(val.LessLenFirst)
+		enc, _ := refcbor.Encode(b)
+		m[RawCidOf(b)] = val.MkBytes(enc)
 	}
 	return m
 }
@@ -57,6 +70,8 @@ type Opts struct {
 	Profile   val.Profile
 	Dangling  bool // allow links to blocks that do not exist
 	LinkHeavy bool // many links, many of them repeated
+	// RawAliases: some links address a block's bytes under the raw codec instead (same multihash, other CID)
+	RawAliases bool
 }
 
 func DefaultOpts() Opts {
@@ -90,6 +105,9 @@ func Draw(t *rapid.T, o Opts) Graph {
 			v = v.SortKeys(val.LessLenFirst)
 			g.Blocks = append(g.Blocks, v)
 			pool = append(pool, CidOf(v))
+			if o.RawAliases && rapid.IntRange(0, 3).Draw(t, "rawalias") == 0 {
+				pool = append(pool, RawCidOf(v))
+			}
 		}
 	}
 	return g
@@ -134,10 +152,11 @@ func sprinkleLinks(t *rapid.T, v val.V, pool []string, depth int, heavy bool) va
 
 // Real is a graph realised in a link system.
 type Real struct {
-	LSys  linking.LinkSystem
-	Mem   *memstore.Store
-	Root  datamodel.Node
-	Loads *[]string // binary CIDs in the order the storage was asked for them
+	LSys    linking.LinkSystem
+	Mem     *memstore.Store
+	Root    datamodel.Node
+	Loads   *[]string // binary CIDs in the order the storage was asked for them
+	NBlocks int
 }
 
 // Realise stores every block through a real LinkSystem (checking that the link it returns is
@@ -163,6 +182,8 @@ func Realise(g Graph, np datamodel.NodePrototype) (*Real, error) {
 		if l.Binary() != CidOf(b) {
 			return nil, fmt.Errorf("block %d: link system gives %x, model gives %x", i, l.Binary(), CidOf(b))
 		}
+		// the same bytes under the raw-codec address
+		mem.Bag[RawCidOf(b)] = mem.Bag[l.Binary()]
 	}
 	if np == nil {
 		np = basicnode.Prototype.Any
@@ -171,7 +192,7 @@ func Realise(g Graph, np datamodel.NodePrototype) (*Real, error) {
 	if err != nil {
 		return nil, err
 	}
-	return &Real{LSys: lsys, Mem: mem, Root: root, Loads: &loads}, nil
+	return &Real{LSys: lsys, Mem: mem, Root: root, Loads: &loads, NBlocks: len(g.Blocks)}, nil
 }
 
 // Seg resolves one path segment on an abstract value, the way the data model defines it:
